@@ -31,17 +31,18 @@ class Delimited(Harness):
                  "_modify_for_carriage_return/get_data/_get_field_by_number", "TextBufferExtractor.get_digit_array/get_padded_field/"
                  "get_field_by_number", "move_intervals_to_digit_array/right_padded_array", "str_to_int(_with_missing)", "str_to_float",
                  "as_string_array", "AlphabetEncoding._encode")
-    bounds = {"quick": "BED3, BED6, chrom.sizes, bedGraph; 1-3 records; cell widths from {1,2,4} incl. very unequal widths in one "
-                       "column; signed integers; '.' score placeholders; LF/CRLF; final newline or none; one header/comment line",
+    bounds = {"quick": "BED3, BED6, chrom.sizes, bedGraph; 1-3 records; cell widths from {1,2,4,5} incl. very unequal widths in one "
+                       "column, and 10-12 digit integers (beyond 2^31 and 2^32); signed integers; '.' score placeholders; LF/CRLF; final newline or none; one header/comment line",
               "thorough": "more width patterns, 4 records"}
     assumptions = ("bedGraph value column compared in the exact-real model (which real number is computed; rounding outside the claim)",)
 
     def skeletons(self, tier, seed):
         out = []
         W = {"bed3": [[[1, 1, 1]], [[2, 1, 2], [1, 4, 4]], [[4, 1, 1], [1, 2, 2], [1, 1, 4]], [[1, 2, 1], [1, 1, 2]],
-                      [[1, 1, 1], [1, 4, 5]], [[1, 1, 1], [1, 2, 2], [1, 5, 5]]],   # first fields end before the widest field's width
+                      [[1, 1, 1], [1, 4, 5]], [[1, 1, 1], [1, 2, 2], [1, 5, 5]],   # first fields end before the widest field's width
+                      [[1, 10, 10]], [[1, 1, 10], [1, 10, 11]]],                     # values beyond 2^31 / 2^32
              "bed6": [[[1, 1, 1, 1, 1, 1]], [[2, 1, 2, 1, 2, 1], [1, 2, 2, 3, 1, 1]]],
-             "chromsizes": [[[1, 1]], [[4, 1], [1, 4]], [[2, 2], [1, 1], [3, 4]], [[1, 1], [1, 5]]],
+             "chromsizes": [[[1, 1]], [[4, 1], [1, 4]], [[2, 2], [1, 1], [3, 4]], [[1, 1], [1, 5]], [[1, 12], [1, 1]]],
              "bedgraph": [[[1, 1, 1, 1]], [[1, 1, 2, 3], [2, 2, 2, 1]], [[1, 1, 1, 4], [1, 1, 1, 2]]]}
         if tier == "thorough":
             W["bed3"] += [[[1, 1, 1], [2, 2, 2], [4, 4, 4], [1, 4, 1]], [[3, 5, 5], [1, 1, 1]]]
@@ -216,6 +217,9 @@ class Sequences(Harness):
 VCF_HEADER = ("##fileformat=VCFv4.2\n"
               "##INFO=<ID=DP,Number=1,Type=Integer,Description=\"depth\">\n"
               "##INFO=<ID=FL,Number=0,Type=Flag,Description=\"flag\">\n"
+              "##INFO=<ID=FLA,Number=0,Type=Flag,Description=\"a flag whose name starts with another flag's name\">\n"
+              "##INFO=<ID=FLX,Number=1,Type=Integer,Description=\"a key whose name starts with a flag's name\">\n"
+              "##INFO=<ID=XDP,Number=1,Type=Integer,Description=\"a key whose name ends with another key's name\">\n"
               "##FORMAT=<ID=GT,Number=1,Type=String,Description=\"Genotype\">\n"
               "#CHROM\tPOS\tID\tREF\tALT\tQUAL\tFILTER\tINFO\tFORMAT\tS1\tS2\n")
 
@@ -239,6 +243,11 @@ class VCF(Harness):
             [R(2, 3, 1, 1, 2, "dp", 2, "GT:DP", ["gt:2", "gt:1"]), R(1, 1, 2, 2, 1, "fl_dp", 1, "GT:DP", ["gt:1", "gt:2"])],
             [R(1, 2, 1, 1, 1, "dp", 1, "GT:DP", ["gt", "gt:4"]), R(1, 1, 1, 1, 1, "dp", 2, "GT:DP", ["gt:1", "gt:1"])],
         ]
+        # INFO keys that are prefixes / suffixes of one another, flags in any position
+        sets.append([R(1, 1, 1, 1, 1, "fla_dp", 1, "GT", ["gt", "gt"]), R(1, 1, 1, 1, 1, "fl_dp", 1, "GT", ["gt", "gt"])])
+        sets.append([R(1, 1, 1, 1, 1, "flx_dp", 1, "GT", ["gt", "gt"]), R(1, 2, 1, 1, 1, "dp_fl", 2, "GT", ["gt", "gt"]),
+                     R(1, 1, 1, 1, 1, "xdp_dp", 1, "GT", ["gt", "gt"])])
+        sets.append([R(1, 1, 1, 1, 1, "fla_fl_dp", 1, "GT", ["gt", "gt"]), R(1, 1, 1, 1, 1, "xdp_dp", 2, "GT", ["gt", "gt"])])
         if tier == "thorough":
             sets.append([R(1, 1, 1, 1, 1, "dp", 1, "GT:DP", ["gt:3", "gt"]), R(3, 4, 1, 3, 1, "fl_dp", 2, "GT:DP", ["gt:1", "gt:1"]),
                          R(1, 1, 1, 1, 1, "dp", 1, "GT:DP", ["gt:1", "gt:3"])])
@@ -291,7 +300,8 @@ class VCF(Harness):
             f.append([ord(".")])
             f.append([g(f"v{r}_f{j}") for j in range(2)])
             dp = list(b"DP=") + [g(f"v{r}_d{j}") for j in range(rec["dpw"])]
-            f.append((list(b"FL;") if rec["info"] == "fl_dp" else []) + dp)
+            pre = {"dp": b"", "dp_fl": b"", "fl_dp": b"FL;", "fla_dp": b"FLA;", "flx_dp": b"FLX=7;", "xdp_dp": b"XDP=9;", "fla_fl_dp": b"FLA;FL;"}[rec["info"]]
+            f.append(list(pre) + dp + (list(b";FL") if rec["info"] == "dp_fl" else []))
             f.append(list(rec["fmt"].encode()))
             for si, sm in enumerate(rec["samples"]):
                 cell = [g(f"v{r}_g{si}_{k}") for k in range(3)]
@@ -333,7 +343,7 @@ class VCF(Harness):
             exp["alt"].append([g(f"v{r}_a{j}") for j in range(rec["alt"])])
             exp["filter"].append([g(f"v{r}_f{j}") for j in range(2)])
             exp["dp"].append(I([g(f"v{r}_d{j}") for j in range(rec["dpw"])]))
-            exp["fl"].append(rec["info"] == "fl_dp")
+            exp["fl"].append(rec["info"] in ("fl_dp", "dp_fl", "fla_fl_dp"))
             exp["gt"].append([[g(f"v{r}_g{si}_{k}") for k in range(3)] for si in range(len(rec["samples"]))])
         return exp
 
